@@ -551,7 +551,7 @@ def _g_gen_gell_mann(ctx, r, rng):
 def _g_hadamard_cnot_cyclic(ctx, r, rng):
     from toqito.matrices import cnot, cyclic_permutation_matrix, hadamard
 
-    n = r % 5
+    n = r % 7  # 0..6 qubits (the property names 1..5)
     h = _call(ctx, hadamard, n)
     if h is not None:
         h = arr(h)
